@@ -534,8 +534,11 @@ def skip_overtaken(h: History) -> list[str]:
     import json as _json
 
     live: dict[str, str] = {}      # queue row id -> stage id, for SkipStage rows
+    queued_by: dict[str, str] = {}  # queue row id of a StartStage -> what queued it
     out = []
     for r in h.audit:
+        if r["kind"] == "q_ins" and r["new"] == "StartStage":
+            queued_by[str(r["row_id"])] = ctx_handler(r["ctx"])
         if r["kind"] == "q_ins" and r["new"] == "SkipStage":
             try:
                 live[r["row_id"]] = _json.loads((r["extra"] or {}).get("payload") or "{}").get("stage_id") or ""
@@ -544,7 +547,8 @@ def skip_overtaken(h: History) -> list[str]:
         elif r["kind"] == "q_del":
             live.pop(r["row_id"], None)
         elif r["kind"] == "stage" and r["old"] == "NOT_STARTED" and r["new"] == "RUNNING" and r["row_id"] in live.values():
-            out.append(h.key_of_stage(r["row_id"]))
+            by = queued_by.get(ctx_msgid(r["ctx"]), "")
+            out.append(h.key_of_stage(r["row_id"]) + ("<-sweep" if by == "recovery" else ""))
     return out
 
 
